@@ -62,7 +62,8 @@ def run(ctx, chk):
                 chk.ob('C01.W1', 'record.void_after<-as_of', va[0] == 'agg' and arith.mentions(va, T('field', f[0], 'tv_sec')), where,
                        'void_after <- %s' % fmt(va)[-80:])
                 st = fmt(f[5])
-                chk.ob('C01.W1', 'record.status<-fsm', ('apply_chrony' in st and st.startswith('value#')) or st.endswith('Unknown()'), where,
+                from_step = any(s_ is not None and any(x == s_ for x in psi.walk(f[5])) for s_ in i['steps'])
+                chk.ob('C01.W1', 'record.status<-fsm', (from_step and st.startswith('value#')) or st.endswith('Unknown()'), where,
                        'status <- %s' % st[:80])
         chk.floor('C01.W1', 'publishing paths', sum(1 for i in um.infos if i['records']), 5)
     if pm.ok:
@@ -170,21 +171,31 @@ def run(ctx, chk):
     for b in fb.bodies(common.SHM):
         if b.name == 'new' and (b.impl_self or '').endswith(('ShmReader', 'ShmWriter')):
             side = 'reader' if b.impl_self.endswith('ShmReader') else 'writer'
-            eng = common.mk_engine(fb, no_inline=lambda x: x.name in ('is_usable_segment', 'wipe', 'mmap_segment_at'))
+            from .startup_model import is_reader_new
+            eng = common.mk_engine(fb, inline_depth=8, no_inline=(is_reader_new if side == 'writer' else None))
             for q in eng.run(b):
                 if q.kind == 'return' and q.value[0] == 'agg' and q.value[2] == 'Ok':
                     for ef in q.effects:
                         if ef['kind'] == 'call' and ef['callee'].endswith('::add') and psi.is_int_const(ef['args'][1]):
                             offs[side] = ef['args'][1][1]
+    # the type each side actually moves through its record pointer: the type argument of the raw-pointer
+    # read reachable from ShmReader::snapshot and of the raw-pointer write reachable from ShmWriter::write
     ptr_tys = {}
-    from .open_model import layout_in
-    for suffix, field in (('reader::ShmReader', 'ceb_shm'), ('writer::ShmWriter', 'ceb')):
-        a, c = layout_in(fb, common.SHM, suffix)
-        if a:
-            for f in a['variants'][0]['fields']:
-                if f['name'] == field:
-                    t = c.types[f['ty']]
-                    ptr_tys[suffix.split('::')[-1]] = c.types[t['inner']]['s'] if t.get('inner') is not None else t['s']
+    for b in fb.bodies(common.SHM):
+        side = 'ShmReader' if b.name == 'snapshot' and (b.impl_self or '').endswith('ShmReader') else \
+            'ShmWriter' if b.name == 'write' and (b.impl_self or '').endswith('ShmWriter') else None
+        if side is None:
+            continue
+        want = ('::read_volatile', '::read') if side == 'ShmReader' else ('::write_volatile', '::write')
+        tys = set()
+        for ob, bb, t, fn in common.reachable_calls(fb, b):
+            if fn['path'].startswith('std::ptr::') and fn['path'].endswith(want) and fn.get('targs'):
+                tys.add(ob.crate.tystr(fn['targs'][0]))
+                chk.analysed['call_sites'] += 1
+        if len(tys) == 1:
+            ptr_tys[side] = tys.pop()
+        elif tys:
+            ptr_tys[side] = 'several: %s' % sorted(tys)
     chk.ob('C01.W5', 'record:same-offset', hdrl is not None and offs.get('reader') == offs.get('writer') == hdrl['size'], '',
            'record pointer offsets %s (header size %s)' % (offs, hdrl['size'] if hdrl else None))
     chk.ob('C01.W5', 'record:same-pointee', len(set(ptr_tys.values())) == 1 and len(ptr_tys) == 2 and list(ptr_tys.values())[0].endswith('ClockErrorBound'), '',
